@@ -1098,6 +1098,11 @@ impl Part for StyledPrograms {
                     );
                 }
             }
+            // the fuel budget is the harness' own protection against endless programs
+            (Ok(_), Err(e)) if e.kind() == minijinja::ErrorKind::OutOfFuel => {
+                v.nontrivial = false;
+                v.labels.push("out_of_fuel");
+            }
             (Ok(w), Err(e)) => v.set_fail(
                 "styled_program_fails",
                 format!("expected {w:?} but the engine fails: {e:#}\nsettings {:?}, syntax {:?}\nsource: {:?}", b.settings, b.syntax, b.source),
